@@ -9,7 +9,7 @@ for pid in sorted(PROPS):
     t = TEXT[pid]
     checks.append({"property_id": pid, "quick_cmd": "python3 tools/check.py %s quick" % pid, "thorough_cmd": "python3 tools/check.py %s thorough" % pid,
                    "evidence_file": "evidence/%s.json" % pid, "replay_cmd_template": "python3 tools/check.py replay {path}", "engine": "coq-model+correspondence",
-                   "level_claimed": {"category": "proof", "text": t["level"], "design_ref": "DESIGN.md section 5, " + pid},
+                   "level_claimed": {"category": "proof", "text": t["level"], "design_ref": "DESIGN.md section 6, " + pid},
                    "level_note": t["note"], "technique": t["technique"]})
 m = {"version": 1,
      "setup_cmd": "python3 tools/check.py setup",
